@@ -148,33 +148,39 @@ static void parent_post(void) {
   CHECK(h_printed() == exp_fail, "each of them is reported exactly once");
   CHECK(body_runs == 0 && exit_calls == 0, "the parent neither runs the test body itself nor exits");
 }
-static void body_parent(const uint32_t MAXW, const uint32_t MAXNT) {
-  h_init();
-  IN_U32(pid); IN_ARR_U32(wf, W_CAP); IN_ARR_U32(we, W_CAP); IN_ARR_U32(ws, W_CAP);
-  ASSUME(pid >= 1 && pid <= 0x7fffffffu);
-  /* native sampling only: make long EINTR runs / stops frequent (replays carry no "sample_mode": mode 0) */
+/* native sampling only: make long EINTR runs / stops frequent (replays carry no "sample_mode": mode 0) */
+static void sample_bias(uint32_t* wf, uint32_t* we, uint32_t* ws) {
 #ifndef LL2C_CBMC
-  { uint32_t sample_mode = (uint32_t)hn_input("sample_mode", -1, 2);
-    for (int i = 0; i < W_CAP; i++) {
-      if (sample_mode == 1 && (wf[i] % 16) != 0) { wf[i] = 1; we[i] = T_EINTR; }
-      if (sample_mode == 2) { wf[i] = (wf[i] % 4) != 0; if (we[i] & 3) we[i] = T_EINTR; if ((ws[i] & 0x300) == 0) ws[i] |= 0x7f; }
-      if (sample_mode == 3 && (ws[i] & 0x100)) ws[i] = (ws[i] & 0xff00u) | 0x7fu;
-    } }
+  uint32_t sample_mode = (uint32_t)hn_input("sample_mode", -1, 2);
+  for (int i = 0; i < W_CAP; i++) {
+    if (sample_mode == 1 && (wf[i] % 16) != 0) { wf[i] = 1; we[i] = T_EINTR; }
+    if (sample_mode == 2) { wf[i] = (wf[i] % 4) != 0; if (we[i] & 3) we[i] = T_EINTR; if ((ws[i] & 0x300) == 0) ws[i] |= 0x7f; }
+    if (sample_mode == 3 && (ws[i] & 0x100)) ws[i] = (ws[i] & 0xff00u) | 0x7fu;
+  }
+#else
+  (void)wf; (void)we; (void)ws;
 #endif
-  for (int i = 0; i < W_CAP; i++) { s_fail[i] = wf[i] & 1; s_err[i] = we[i]; s_st[i] = ws[i] & 0xffffu; }
-  fork_value = pid; max_w = MAXW; max_nt = MAXNT;
-  h_run_separate(0);
-  parent_post();
-  CHECK(fork_calls == 1, "one child per test");
-  OBSERVE(wait_calls); OBSERVE(exp_fail); OBSERVE(exp_kill);
-  if (n_stopped >= 2 && n_other >= 1 && n_signalled) WITNESS("stop, stop, continue-report, killed");
-  if (n_error) WITNESS("wait failed with another errno");
-  if (n_exit_ok && exp_fail == 0) WITNESS("clean exit adds nothing");
-  WITNESS("end");
 }
-HARNESS(harness_parent_8) { body_parent(8, 8); }
-HARNESS(harness_parent_36_1) { body_parent(36, 1); }
-HARNESS(harness_parent_36_2) { body_parent(36, 2); }
+/* (the inputs are declared in the HARNESS function itself so that counterexample replays find them by name) */
+#define BODY_PARENT(MAXW, MAXNT) \
+  h_init(); \
+  IN_U32(pid); IN_ARR_U32(wf, W_CAP); IN_ARR_U32(we, W_CAP); IN_ARR_U32(ws, W_CAP); \
+  ASSUME(pid >= 1 && pid <= 0x7fffffffu); \
+  sample_bias(wf, we, ws); \
+  for (int i = 0; i < W_CAP; i++) { s_fail[i] = wf[i] & 1; s_err[i] = we[i]; s_st[i] = ws[i] & 0xffffu; } \
+  fork_value = pid; max_w = (MAXW); max_nt = (MAXNT); \
+  h_run_separate(0); \
+  parent_post(); \
+  CHECK(fork_calls == 1, "one child per test"); \
+  OBSERVE(wait_calls); OBSERVE(exp_fail); OBSERVE(exp_kill); \
+  if (n_stopped >= 2 && n_other >= 1 && n_signalled) WITNESS("stop, stop, continue-report, killed"); \
+  if (n_error) WITNESS("wait failed with another errno"); \
+  if (n_exit_ok && exp_fail == 0) WITNESS("clean exit adds nothing"); \
+  WITNESS("end");
+/* (MAXW, MAXNT): at most MAXW wait results, of which at most MAXNT are successful non-terminal reports */
+HARNESS(harness_parent_8) { BODY_PARENT(8, 8) }
+HARNESS(harness_parent_36_1) { BODY_PARENT(36, 1) }
+HARNESS(harness_parent_36_2) { BODY_PARENT(36, 2) }
 
 /* one wait result, all 65536 status words: the decoding of the status word alone */
 HARNESS(harness_status_word) {
@@ -217,27 +223,26 @@ HARNESS(harness_child) {
 /* the framework's run loop: every test gets its own child, a dead child does not stop the run,
  * the overall result is a failure iff some child reported an event; without the separate-process
  * flag nothing forks. */
-static void body_registry(const uint32_t NTESTS, const uint32_t MAXW) {
-  h_init();
-  IN_U32(rpid); IN_BOOL(separate); IN_BOOL(radds); IN_ARR_U32(rf, 6); IN_ARR_U32(re, 6); IN_ARR_U32(rs, 6);
-  ASSUME(rpid >= 1 && rpid <= 0x7fffffffu);
-  for (int i = 0; i < 6; i++) { s_fail[i] = rf[i] & 1; s_err[i] = re[i]; s_st[i] = rs[i] & 0xffffu; }
-  fork_value = rpid; max_w = MAXW; child_adds = radds;
-  h_run_registry(NTESTS, separate);
-  OBSERVE(h_failures()); OBSERVE(fork_calls); OBSERVE(wait_calls);
-  CHECK(h_run_count() == NTESTS, "every test is run, whatever happened to the children of earlier tests");
-  if (separate) {
-    parent_post();
-    CHECK(fork_calls == NTESTS, "each test runs in a child of its own");
-    if (exp_fail >= 2) WITNESS("two tests died");
-  } else {
-    CHECK(fork_calls == 0 && wait_calls == 0 && kill_calls == 0, "without the separate-process flag nothing forks");
-    CHECK(body_runs == NTESTS && body_args_ok == 3, "each test runs once in the current process");
-    CHECK(h_failures() == NTESTS * radds, "failures are those of the test bodies");
-    WITNESS("in-process run");
-  }
-  CHECK((h_is_failure() != 0) == (h_failures() != 0), "the run reports an overall failure iff some test failed");
+#define BODY_REGISTRY(NTESTS, MAXW) \
+  h_init(); \
+  IN_U32(rpid); IN_BOOL(separate); IN_BOOL(radds); IN_ARR_U32(rf, 6); IN_ARR_U32(re, 6); IN_ARR_U32(rs, 6); \
+  ASSUME(rpid >= 1 && rpid <= 0x7fffffffu); \
+  for (int i = 0; i < 6; i++) { s_fail[i] = rf[i] & 1; s_err[i] = re[i]; s_st[i] = rs[i] & 0xffffu; } \
+  fork_value = rpid; max_w = (MAXW); child_adds = radds; \
+  h_run_registry((NTESTS), separate); \
+  OBSERVE(h_failures()); OBSERVE(fork_calls); OBSERVE(wait_calls); \
+  CHECK(h_run_count() == (NTESTS), "every test is run, whatever happened to the children of earlier tests"); \
+  if (separate) { \
+    parent_post(); \
+    CHECK(fork_calls == (NTESTS), "each test runs in a child of its own"); \
+    if (exp_fail >= 2) WITNESS("two tests died"); \
+  } else { \
+    CHECK(fork_calls == 0 && wait_calls == 0 && kill_calls == 0, "without the separate-process flag nothing forks"); \
+    CHECK(body_runs == (NTESTS) && body_args_ok == 3, "each test runs once in the current process"); \
+    CHECK(h_failures() == (NTESTS) * radds, "failures are those of the test bodies"); \
+    WITNESS("in-process run"); \
+  } \
+  CHECK((h_is_failure() != 0) == (h_failures() != 0), "the run reports an overall failure iff some test failed"); \
   WITNESS("end");
-}
-HARNESS(harness_registry_2) { body_registry(2, 4); }
-HARNESS(harness_registry_3) { body_registry(3, 5); }
+HARNESS(harness_registry_2) { BODY_REGISTRY(2, 4) }
+HARNESS(harness_registry_3) { BODY_REGISTRY(3, 5) }
